@@ -14,12 +14,17 @@ func init() {
 			ID: "C30", Title: "IS-IS PDU decoding is total and encoding round-trips", Level: "other",
 			Technique:   "panic-capable-operation enumeration with structural discharge (R-PCO), allocation-size and loop-form checks (R-TAINT) over everything statically reachable from the IS-IS decoders; reader/writer table agreement of the TLV registry",
 			DesignRef:   "DESIGN.md §4 C30",
-			Decided:     "(0) no reader of a TLV that bio-rd also constructs rejects, by a test on the TLV length, a length the constructor can produce (empty lists included); for every function reachable from packet.Decode, DecodeHeader, DecodeP2PHello, DecodeL2Hello, DecodeLSPDU, DecodeCSNP, DecodePSNP in protocols/isis/packet and util/decode: (1) every explicit index, slice, unchecked type assertion, division and panic() is discharged by a dominating guard; (2) every make() size is a constant, of a ≤16-bit type or bounded by bytes received, and contains no unguarded subtraction; (3) every loop makes progress; (4) every TLV type the reader dispatches on has a serializer that writes that type code and vice versa (table agreement).",
+			Decided:     "(00) TLV lengths fit their octet: every constructor whose length is a·len(list)+b is called with a list bounded so that a·n+b ≤ 255 (slices of Min(K,…) elements, clamps, loop exit conditions), and every `TLVLength +=` is covered by a test that the sum stays ≤ 255, in place or through a sound Fits predicate tested before every Add (roll-over to a fresh TLV); NewCSNPs/NewPSNPs count down the entries they have handed out and getLSPEntries reads every LSP Entries TLV; (0) no reader of a TLV that bio-rd also constructs rejects, by a test on the TLV length, a length the constructor can produce (empty lists included); for every function reachable from packet.Decode, DecodeHeader, DecodeP2PHello, DecodeL2Hello, DecodeLSPDU, DecodeCSNP, DecodePSNP in protocols/isis/packet and util/decode: (1) every explicit index, slice, unchecked type assertion, division and panic() is discharged by a dominating guard; (2) every make() size is a constant, of a ≤16-bit type or bounded by bytes received, and contains no unguarded subtraction; (3) every loop makes progress; (4) every TLV type the reader dispatches on has a serializer that writes that type code and vice versa (table agreement).",
 			NotDecided:  "round-trip equality of the content (value equality).",
 			TrustedBase: append([]string{"bytes.Buffer / encoding/binary read functions return an error at end of input"}, stdTrusted...),
 		},
 		Run: runC30,
 		Controls: []Control{
+			{Name: "snp-remaining-count-not-decreased", File: "protocols/isis/packet/csnp.go", Old: "\t\tleft -= end\n", New: "", Expect: "snp-chunks-cover-the-list"},
+			{Name: "snp-entries-in-a-single-tlv", File: "protocols/isis/packet/csnp.go", Old: "\t\ttlvs := NewLSPEntriesTLVs(entries)\n", New: "\t\ttlvs := []TLV{NewLSPEntriesTLV(entries)}\n", Expect: "tlv-length-fits-octet"},
+			{Name: "only-first-lsp-entries-tlv-read", File: "protocols/isis/packet/csnp.go", Old: "\t\tres = append(res, tlv.Value().(*LSPEntriesTLV).LSPEntries...)\n", New: "\t\tres = append(res, tlv.Value().(*LSPEntriesTLV).LSPEntries...)\n\t\tbreak\n", Expect: "snp-chunks-cover-the-list"},
+			{Name: "reachability-added-without-fits", File: "protocols/isis/server/lsp.go", Old: "\t\t\tif !eipr.Fits(r) {\n\t\t\t\ttlvs = append(tlvs, eipr)\n\t\t\t\teipr = packet.NewExtendedIPReachabilityTLV()\n\t\t\t}\n\n", New: "", Expect: "tlv-length-fits-octet"},
+			{Name: "fits-computed-in-the-octet", File: "protocols/isis/packet/tlv_extended_is_reachability.go", Old: "\treturn int(e.TLVLength)+ExtendedISReachabilityNeighborMinLen+int(n.SubTLVLength) <= math.MaxUint8\n", New: "\treturn e.TLVLength+ExtendedISReachabilityNeighborMinLen+n.SubTLVLength <= math.MaxUint8\n", Expect: "tlv-length-fits-octet"},
 			{Name: "reader-rejects-empty-address-list", File: "protocols/isis/packet/tlv_ip_interface_addresses.go", Old: "\tpdu := &IPInterfaceAddressesTLV{\n\t\tTLVType:       tlvType,", New: "\tif tlvLength < 4 || tlvLength%4 != 0 {\n\t\treturn nil, fmt.Errorf(\"invalid length %d\", tlvLength)\n\t}\n\n\tpdu := &IPInterfaceAddressesTLV{\n\t\tTLVType:       tlvType,", Expect: "reader-accepts-what-the-constructor-builds"},
 			{Name: "refactor-reader-rejects-partial-address", Silent: true, File: "protocols/isis/packet/tlv_ip_interface_addresses.go", Old: "\tpdu := &IPInterfaceAddressesTLV{\n\t\tTLVType:       tlvType,", New: "\tif tlvLength%4 != 0 {\n\t\treturn nil, fmt.Errorf(\"invalid length %d\", tlvLength)\n\t}\n\n\tpdu := &IPInterfaceAddressesTLV{\n\t\tTLVType:       tlvType,"},
 			{Name: "protocol-ids-made-too-short", File: "protocols/isis/packet/tlv_protocols_supported.go", Old: "\t\tNetworkLayerProtocolIDs: make([]uint8, tlvLength),", New: "\t\tNetworkLayerProtocolIDs: make([]uint8, tlvLength/2),", Expect: "no-panic"},
@@ -36,6 +41,9 @@ func isisScope(f *core.Fn) bool {
 
 func runC30(c *core.Ctx) {
 	decoderAcceptsEncoderLengths(c)
+	tlvLengthFitsOctet(c, "tlv-length-fits-octet")
+	snpChunking(c, "snp-chunks-cover-the-list")
+	tlvLengthAccumulationGuarded(c, "tlv-length-fits-octet")
 	var roots []*core.Fn
 	for _, k := range []string{"Decode", "DecodeHeader", "DecodeP2PHello", "DecodeL2Hello", "DecodeLSPDU", "DecodeCSNP", "DecodePSNP"} {
 		if f := c.MustFunc(isisPkt + "." + k); f != nil {
